@@ -274,8 +274,10 @@ def gen_cases(ctx: Ctx) -> List[Dict[str, Any]]:
 
 
 def run(ctx: Ctx):
-    gen.regenerate(ctx, ["Cadence"])
+    gen.regenerate(ctx, ["Cadence", "Gates"])
     leanproj.check_theorems(ctx, MODULE, THEOREMS)
+    from .registry import THEOREMS_GATESTIE
+    leanproj.check_theorems(ctx, "PyseqmVerif.Properties.GatesTie", THEOREMS_GATESTIE)
     from .registry import THEOREMS_C11B
     leanproj.check_theorems(ctx, "PyseqmVerif.Properties.C10b", THEOREMS_C11B)
     drv = leanproj.Driver()
